@@ -1,0 +1,228 @@
+//go:build verif
+
+package dastard
+
+// Thin exported access for the C19 (channel identity) correspondence check of /verif.
+// Compiled only with `-tags verif`; adds no behaviour to the normal build.
+
+import (
+	"path/filepath"
+	"strings"
+	"time"
+
+	"github.com/usnistgov/dastard/packets"
+)
+
+// VerifC19Stream is the identity of one data stream as the source tables hold it.
+type VerifC19Stream struct {
+	Name   string
+	Number int
+	Code   uint64
+	Row    int // the code decoded by the real accessors
+	Col    int
+	Rows   int
+	Cols   int
+}
+
+// VerifC19Tables is what PrepareChannels left behind (or Rejected when Sample/PrepareChannels returned an error).
+type VerifC19Tables struct {
+	Rejected         bool
+	Nchan            int
+	ChannelsPerPixel int
+	Streams          []VerifC19Stream
+	Groups           []GroupIndex
+}
+
+// VerifC19File is the identity one stream's output files carry after a WriteControl START.
+type VerifC19File struct {
+	LJH22Name string // base name with the date/run prefix removed
+	LJH3Name  string
+	ChanName  string
+	ChanNum   int
+	Row       int
+	Col       int
+	Rows      int
+	Cols      int
+}
+
+// VerifC19Dev describes one faked Lancero card.
+type VerifC19Dev struct{ Devnum, Ncols, Nrows int }
+
+func verifC19Tables(ds *AnySource) VerifC19Tables {
+	t := VerifC19Tables{Nchan: ds.nchan, ChannelsPerPixel: ds.channelsPerPixel}
+	names := ds.ChannelNames()
+	t.Groups = ds.ChanGroups()
+	n := len(names)
+	if len(ds.chanNumbers) < n {
+		n = len(ds.chanNumbers)
+	}
+	if len(ds.rowColCodes) < n {
+		n = len(ds.rowColCodes)
+	}
+	if n != ds.nchan || len(names) != n || len(ds.chanNumbers) != n || len(ds.rowColCodes) != n {
+		t.Nchan = -1 // tables of unequal length: reported, never hidden
+	}
+	for i := 0; i < n; i++ {
+		c := ds.rowColCodes[i]
+		t.Streams = append(t.Streams, VerifC19Stream{Name: names[i], Number: ds.chanNumbers[i], Code: uint64(c),
+			Row: c.row(), Col: c.col(), Rows: c.rows(), Cols: c.cols()})
+	}
+	return t
+}
+
+// VerifC19Lancero builds a LanceroSource whose active cards are devs (in this order; no hardware),
+// with the numbering parameters a LanceroSourceConfig would set, and calls the real PrepareChannels
+// `calls` times without reconfiguring in between.  The source is returned for VerifC19Start.
+func VerifC19Lancero(devs []VerifC19Dev, firstRow, sepCards, sepCols, calls int) ([]VerifC19Tables, *AnySource) {
+	ls := new(LanceroSource)
+	ls.name = "Lancero"
+	ls.nsamp = 1
+	ls.devices = make(map[int]*LanceroDevice)
+	ls.channelsPerPixel = 2
+	ls.firstRowChanNum = firstRow
+	ls.chanSepCards = sepCards
+	ls.chanSepColumns = sepCols
+	ls.sampleRate = 10000
+	ls.samplePeriod = 100 * time.Microsecond
+	for _, d := range devs {
+		dev := &LanceroDevice{devnum: d.Devnum, ncols: d.Ncols, nrows: d.Nrows}
+		ls.devices[d.Devnum] = dev
+		ls.ncards++
+		ls.active = append(ls.active, dev)
+		ls.nchan += dev.ncols * dev.nrows * 2 // as LanceroSource.Sample does
+	}
+	var out []VerifC19Tables
+	for k := 0; k < calls; k++ {
+		if err := ls.PrepareChannels(); err != nil {
+			out = append(out, VerifC19Tables{Rejected: true})
+			continue
+		}
+		out = append(out, verifC19Tables(&ls.AnySource))
+	}
+	return out, &ls.AnySource
+}
+
+// verifC19Producer is a PacketProducer that hands out prepared packets once.
+type verifC19Producer struct{ pkts []*packets.Packet }
+
+func (p *verifC19Producer) ReadAllPackets() ([]*packets.Packet, error) { return nil, nil }
+func (p *verifC19Producer) samplePackets(d time.Duration) ([]*packets.Packet, error) {
+	return p.pkts, nil
+}
+func (p *verifC19Producer) start() error        { return nil }
+func (p *verifC19Producer) discardStale() error { return nil }
+func (p *verifC19Producer) stop() error         { return nil }
+
+// VerifC19Abaco runs the real AbacoSource.Sample and PrepareChannels on packets announcing the given
+// (channel offset, number of channels) pairs, one list per packet producer.
+func VerifC19Abaco(producers [][][2]int) (VerifC19Tables, *AnySource) {
+	as := new(AbacoSource)
+	as.name = "Abaco"
+	as.groups = make(map[GroupIndex]*AbacoGroup)
+	as.eTrigPackets = make([]*packets.Packet, 0)
+	as.channelsPerPixel = 1
+	as.subframeDivisions = abacoSubframeDivisions
+	sn := uint32(1)
+	for _, plist := range producers {
+		pp := &verifC19Producer{}
+		for _, on := range plist {
+			pk := packets.NewPacket(10, 0, sn, on[0])
+			pk.NewData(make([]int16, on[1]), []int16{int16(on[1])}) // an over-long payload still sets the shape
+			sn++
+			pp.pkts = append(pp.pkts, pk)
+		}
+		as.producers = append(as.producers, pp)
+	}
+	if err := as.Sample(); err != nil {
+		return VerifC19Tables{Rejected: true}, &as.AnySource
+	}
+	if err := as.PrepareChannels(); err != nil {
+		return VerifC19Tables{Rejected: true}, &as.AnySource
+	}
+	as.sampleRate = 10000 // no timestamps in the prepared packets: give the START path a finite rate
+	return verifC19Tables(&as.AnySource), &as.AnySource
+}
+
+// VerifC19Generic runs Configure, Sample and the default AnySource.PrepareChannels of a simulated source
+// (kind 0 = TriangleSource, 1 = SimPulseSource) with nchan channels.
+func VerifC19Generic(kind, nchan int) (VerifC19Tables, *AnySource) {
+	var ds DataSource
+	var any *AnySource
+	if kind == 0 {
+		ts := NewTriangleSource()
+		if err := ts.Configure(&TriangleSourceConfig{Nchan: nchan, SampleRate: 10000, Min: 100, Max: 200}); err != nil {
+			return VerifC19Tables{Rejected: true}, &ts.AnySource
+		}
+		ds, any = ts, &ts.AnySource
+	} else {
+		ps := NewSimPulseSource()
+		if err := ps.Configure(&SimPulseSourceConfig{Nchan: nchan, SampleRate: 10000, Pedestal: 1000,
+			Amplitudes: []float64{5000}, Nsamp: 100}); err != nil {
+			return VerifC19Tables{Rejected: true}, &ps.AnySource
+		}
+		ds, any = ps, &ps.AnySource
+	}
+	if err := ds.Sample(); err != nil {
+		return VerifC19Tables{Rejected: true}, any
+	}
+	if err := ds.PrepareChannels(); err != nil {
+		return VerifC19Tables{Rejected: true}, any
+	}
+	return verifC19Tables(any), any
+}
+
+// VerifC19Roach runs the real RoachSource.PrepareChannels for a source of nchan channels.
+func VerifC19Roach(nchan int) (VerifC19Tables, *AnySource) {
+	rs := new(RoachSource)
+	rs.name = "Roach"
+	rs.nchan = nchan
+	rs.sampleRate = 10000
+	if err := rs.PrepareChannels(); err != nil {
+		return VerifC19Tables{Rejected: true}, &rs.AnySource
+	}
+	return verifC19Tables(&rs.AnySource), &rs.AnySource
+}
+
+// VerifC19Start continues the Start path on prepared tables (the real PrepareRun), issues a real
+// WriteControl START for LJH2.2 and LJH3 files below path, reports the identity each stream's writers
+// were given, and stops writing again.  File names are reported without the directory and the
+// date/run prefix that makeDirectory chose.
+func VerifC19Start(ds *AnySource, path string) ([]VerifC19File, error) {
+	if PubRecordsChan == nil {
+		PubRecordsChan = make(chan []*DataRecord, 1)
+	}
+	if PubSummariesChan == nil {
+		PubSummariesChan = make(chan []*DataRecord, 1)
+	}
+	if err := ds.PrepareRun(4, 8); err != nil {
+		return nil, err
+	}
+	defer func() {
+		ds.numberWrittenTicker.Stop()
+		ds.writingState.externalTriggerTicker.Stop()
+		ds.writingState.dataDropTicker.Stop()
+	}()
+	if err := ds.WriteControl(&WriteControlConfig{Request: "START", Path: path, WriteLJH22: true, WriteLJH3: true}); err != nil {
+		return nil, err
+	}
+	pattern := filepath.Base(ds.writingState.FilenamePattern) // yyyymmdd_runNNNN_%s.%s
+	prefix := pattern
+	if k := strings.Index(pattern, "%s"); k >= 0 {
+		prefix = pattern[:k]
+	}
+	var out []VerifC19File
+	for _, dsp := range ds.processors {
+		f := VerifC19File{}
+		if w := dsp.DataPublisher.LJH22; w != nil {
+			f.LJH22Name = strings.TrimPrefix(filepath.Base(w.FileName), prefix)
+			f.ChanName, f.ChanNum = w.ChanName, w.ChannelNumberMatchingName
+			f.Row, f.Col, f.Rows, f.Cols = w.RowNum, w.ColumnNum, w.NumberOfRows, w.NumberOfColumns
+		}
+		if w := dsp.DataPublisher.LJH3; w != nil {
+			f.LJH3Name = strings.TrimPrefix(filepath.Base(w.FileName), prefix)
+		}
+		out = append(out, f)
+	}
+	err := ds.WriteControl(&WriteControlConfig{Request: "STOP"})
+	return out, err
+}
